@@ -552,6 +552,9 @@ class Server:
 
         __, n_notes, __ = count_stats(messages)
         status = 1 if messages and n_notes < len(messages) else 0
+        if self.fine_grained_manager.blocking_error:
+            # Only reachable when starting from a fine-grained cache; see increment_output().
+            status = 2
         # We use explicit sources length to match the logic in non-incremental mode.
         messages = self.pretty_messages(messages, original_sources_len, is_tty, terminal_width)
         return {"out": "".join(s + "\n" for s in messages), "err": "", "status": status}
@@ -845,6 +848,9 @@ class Server:
         # Same rule as for the initial check (and for batch mypy): notes alone are not a failure.
         __, n_notes, __ = count_stats(messages)
         status = 1 if messages and n_notes < len(messages) else 0
+        if self.fine_grained_manager is not None and self.fine_grained_manager.blocking_error:
+            # A blocking error ends a fresh check (and batch mypy) with status 2.
+            status = 2
         messages = self.pretty_messages(messages, len(sources), is_tty, terminal_width)
         return {"out": "".join(s + "\n" for s in messages), "err": "", "status": status}
 
